@@ -258,6 +258,10 @@ func checkC02(c *Check) {
 		c.Anchor("flamego.newContext")
 	}
 
+	// ---- R8 a match-all spans at most its capture limit
+	c.Rule("R8", "shared with C01 (R5, R6)", "the match-all value spans at least one and at most capture-limit segments: growth by exactly one segment per step and the inclusive bounds of tree and leaf (empty segments count)", 6)
+	c.Share("C01", []string{"R5", "R6"}, 6)
+
 	// ---- R7 one params map from Match down to the nodes
 	c.Rule("R7", "E3 pass-through", "every call on the matching path hands the same Params map on (made in Match), so captures of all levels land in the map that is decoded and returned", 8)
 	passThrough(c, func(t types.Type) bool {
